@@ -140,7 +140,17 @@ pub fn run(_params: &Params) {
       .subject_id(Url::parse(if ctx::choose(2) == 0 { format!("{url}#list") } else { url.clone() }).unwrap())
       .issuer(Issuer::Url(Url::parse("did:sim:host").unwrap()))
       .build();
-    let Ok(c) = built else { return };
+    let Ok(mut c) = built else { return };
+    // a list credential as another host might serve it: identified by its credentialSubject.id only (no `id` member)
+    if ctx::choose(6) == 0 {
+      let mut j = serde_json::to_value(&c).unwrap();
+      if j.as_object_mut().and_then(|o| o.remove("id")).is_some() {
+        if let Ok(c2) = StatusList2021Credential::from_json(&j.to_string()) {
+          c = c2;
+          ctx::stat("probe.list_credential_without_own_id");
+        }
+      }
+    }
     creds.push(c);
     models.push(ListModel {
       url,
